@@ -3620,7 +3620,7 @@ impl AbiTraitDefinition {
                 &new_method.info.return_value,
                 &old_method.info.return_value,
                 "".into(),
-                is_return_position,
+                true, // a method's return value is always in return position (it may be a future)
             ) {
                 return Err(format!("In trait {}, method {}, the return value type has changed from version {}: {}. This is not a backward-compatible change.",
                                    self.name, old_method.name, old_version, diff
